@@ -219,7 +219,7 @@ def check(pid, tier, seed):
     rc = verdict.finish()
     cov = {"states": r.distinct, "transitions": r.generated, "traces_validated_against_impl": ok,
            "evaluations": len(recs) * 3, "distinct_nontrivial": nn,
-           "rule": "MC_Tool exports every two-layer tree (main x4 per layer x subsets of %s drop-in names per layer) x content shapes {both, group-less only, sections only, header-only section in the main file, drop-ins holding only comments} x {no malformed file, each consulted regular file malformed (missing bracket, text after the section, empty section name in turn)}; %d trees materialised under $ECONFTOOL_ROOT (/usr/etc, /etc) under the configuration names cfg, org.example.app, a.b, x-1_y in turn, with delimiter '=', ':' (--delimiters) and blanks (--delimiters=spaces); the built econftool runs show, syntax, cat (stdbuf keeps stdout/stderr order); stdout parsed into (section, key, value lines) triples and compared as sets with Tool!ShowCmd / CatCmd, exit status with SyntaxCmd, error location = malformed file + line; plus single absolute files; the ASan/UBSan build of the tool runs show on every tree. non-trivial = result with group-less keys or >= 2 sections or a malformed file." % (names, len(recs)),
+           "rule": "MC_Tool exports every two-layer tree (main x4 per layer x subsets of %s drop-in names per layer) x content shapes {both, group-less only, sections only, header-only section in the main file, drop-ins holding only comments} x {no malformed file, each consulted regular file malformed (missing bracket, text after the section, empty section name in turn)}; %d trees materialised under $ECONFTOOL_ROOT (/usr/etc, /etc) under the configuration names cfg, org.example.app, a.b, x-1_y in turn, with delimiter '=', ':' (--delimiters) and blanks (--delimiters=spaces); the built econftool runs show, syntax, cat (stdbuf keeps stdout/stderr order); stdout parsed into (section, key, value lines) triples and compared as sets with Tool!ShowCmd / CatCmd, exit status with SyntaxCmd, error location = malformed file + line; plus single absolute files (hand-written and random ones incl. sections that are closed and opened again; every (section, key) of a random file is also asked for BY NAME through the library and must be printed); the ASan/UBSan build of the tool runs show on every tree. non-trivial = result with group-less keys or >= 2 sections or a malformed file." % (names, len(recs)),
            "samples": [{"tree": p_layers.tree_text({"main": recs[5]["main"], "drop": recs[5]["drop"], "shp": recs[5]["shp"]}), "show": recs[5]["show"]}],
            "exhaustive": False, "trusted_base": ["TLC 1.8.0", "gcc (plain and ASan/UBSan builds of util/econftool.c + lib)", "coreutils stdbuf"]}
     core.write_evidence(pid, tier, seed, "model_checking", cov, ["the printed layout is not compared, only the parsed triples", "edit/revert are not part of the property"], time.time() - t0, len(verdict.violations))
@@ -238,6 +238,20 @@ def check_random_single(tool, exe, rnd, n, base, verdict):
     while len(items) < n:
         D = rnd.choice(["=", "=", ":", "\t", "=\t", " ", ":=", " \t"])
         C = rnd.choice(["#", ";"])
+        if len(items) % 4 == 3:
+            # sections that are closed and opened again (keys of one section in several blocks, group-less keys first)
+            f = {"lines": [], "abs": []}
+            nk = 0
+            for blk in [None] * rnd.randint(0, 1) + [rnd.choice(["a", "b", "a b", "c"]) for _ in range(rnd.randint(3, 6))]:
+                if blk is not None:
+                    f["lines"].append(core.codes("[%s]" % blk))
+                    f["abs"].append({"t": "header", "key": core.codes(blk)})
+                for _ in range(rnd.randint(0, 2)):
+                    nk += 1
+                    f["lines"].append(core.codes("k%d%sv%d" % (nk, D[0], nk)))
+                    f["abs"].append({"t": "entry", "key": core.codes("k%d" % nk), "val": core.codes("v%d" % nk)})
+            items.append((D, C, f))
+            continue
         f = gram.random_file(rnd, rnd.randint(1, 10), "none", 0.0, D=D, C=C)
         ok = True
         for a in f["abs"]:
@@ -254,7 +268,17 @@ def check_random_single(tool, exe, rnd, n, base, verdict):
     for i, (D, C, f) in enumerate(items):
         path = "%s/r%d.conf" % (R, i)
         open(path, "wb").write(b"\n".join(bytes(l) for l in f["lines"]) + b"\n")
-        cases.append((i, ["readfile 1 %s %s %s" % (hx(path), hx(D), hx(C)), "dumpx 1", "free 1"]))
+        # ... and every (section, key) the generator wrote is asked for BY NAME as well: what the library answers there has to
+        # be printed too (the listing calls the tool itself uses are not the only witness of what the library returns)
+        pairs, cur = [], None
+        for a in f["abs"]:
+            if a["t"] == "header":
+                cur = core.uncodes(a["key"])
+            elif a["t"] in ("entry", "keyonly"):
+                if (cur, core.uncodes(a["key"])) not in pairs:
+                    pairs.append((cur, core.uncodes(a["key"])))
+        f["pairs"] = pairs
+        cases.append((i, ["readfile 1 %s %s %s" % (hx(path), hx(D), hx(C)), "dumpx 1"] + ["ext 1 %s %s" % (hx(g_), hx(k_)) for g_, k_ in pairs] + ["free 1"]))
     res = core.run_cases(exe, cases)
     ok = 0
     for i, (D, C, f) in enumerate(items):
@@ -276,6 +300,14 @@ def check_random_single(tool, exe, rnd, n, base, verdict):
         for b in parse_blocks(text):
             for (s_, k_, vals) in b[1]:
                 got.add((s_, k_, tuple(v for v in vals if v != "")))
+        byname = set()
+        for (g_, k_), e in zip(f["pairs"], [e for e in out["ev"] if e["op"] == "ext"]):
+            if e["rc"] == "ECONF_SUCCESS":
+                byname.add((g_ or "", k_, tuple(v.strip() for v in (e.get("vals") or []) if v.strip() != "")))
+        if rc == 0 and got == want and not byname <= got:
+            verdict.violation("C19:single:random:byname", {"kind": "single", "delims": D, "comment": C, "file": core.uncodes(sum((l + [10] for l in f["lines"]), [])), "got": sorted(got), "missing": sorted(byname - got)},
+                              "econftool show <file> does not print %s, which the library returns when asked by name\nfile:\n%s" % (sorted(byname - got)[:5], core.uncodes(sum((l + [10] for l in f["lines"]), []))))
+            continue
         if rc != 0 or got != want:
             verdict.violation("C19:single:random:%s" % ("escape" if i % 2 and "\t" in D else "plain"),
                               {"kind": "single", "delims": D, "darg": darg, "comment": C, "file": core.uncodes(sum((l + [10] for l in f["lines"]), [])), "got": sorted(got), "want": sorted(want)},
